@@ -325,13 +325,15 @@ def tlc_candle(res, name, consts, timeout, invariants):
     res.cov["torn_tlc_output_lines_ignored"] = res.cov.get("torn_tlc_output_lines_ignored", 0) + nbad
     res.tlc(r, name)
     vlib.log("[tlc] %s: %s distinct states, %.1fs, %d cases" % (name, r.get("distinct"), r["wall_s"], len(r["records"].get("CASE", []))))
-    return r["records"].get("CASE", [])
+    # TLC workers print in a nondeterministic order: sort, so that a seed always yields the same concretisation
+    return sorted(r["records"].get("CASE", []), key=lambda c: json.dumps(c["rows"]))
 
 
 def run_c21(tier):
     prop = "C21"
     res = Result(prop, tier)
     rng = random.Random(vlib.seed() * 7919 + 21)
+    srng = random.Random(vlib.seed() * 104729 + 21)       # sampling salts, independent of the concretisation stream
     binary = vlib.build_harness(cmd="mv_agg")
     quick = tier == "quick"
     # (kind, window class, NW, NT, NP, MaxLen, PermLen, FullLen, SampleMod)
@@ -346,7 +348,7 @@ def run_c21(tier):
     per_tf = {}
     for kind, cls, nw, nt, np_, maxlen, permlen, fulllen, mod in plan:
         name = "Agg_c21_%s_%s_%dx%dx%d_len%d.cfg" % (kind, cls, nw, nt, np_, maxlen)
-        consts = candle_consts(kind, cls, cls, nw, nt, 1, np_, maxlen, permlen, fulllen, mod, rng.randrange(mod))
+        consts = candle_consts(kind, cls, cls, nw, nt, 1, np_, maxlen, permlen, fulllen, mod, srng.randrange(mod))
         tcases = tlc_candle(res, name, consts, 1500 if quick else 7200, ["RefinesCandles", "OrderIndependent"])
         if len(tcases) < 10:
             raise Undecided("TLC emitted only %d cases for %s" % (len(tcases), name))
@@ -427,6 +429,7 @@ def run_c22(tier):
     prop = "C22"
     res = Result(prop, tier)
     rng = random.Random(vlib.seed() * 7919 + 22)
+    srng = random.Random(vlib.seed() * 104729 + 22)
     binary = vlib.build_harness(cmd="mv_agg")
     quick = tier == "quick"
     # (kind, coarse class, NW, NT, Ratio, NP, MaxLen, PermLen, FullLen, SampleMod)
@@ -442,7 +445,7 @@ def run_c22(tier):
     per_pair = {}
     for kind, ccls, nw, nt, ratio, np_, maxlen, permlen, fulllen, mod in plan:
         name = "Agg_c22_%s_%s_%dx%dx%dx%d_len%d.cfg" % (kind, ccls, nw, ratio, nt, np_, maxlen)
-        consts = candle_consts(kind, "duration", ccls, nw, nt, ratio, np_, maxlen, permlen, fulllen, mod, rng.randrange(mod))
+        consts = candle_consts(kind, "duration", ccls, nw, nt, ratio, np_, maxlen, permlen, fulllen, mod, srng.randrange(mod))
         tcases = tlc_candle(res, name, consts, 1500 if quick else 7200, ["RefinesCandles", "Composes"])
         if len(tcases) < 10:
             raise Undecided("TLC emitted only %d cases for %s" % (len(tcases), name))
@@ -634,7 +637,7 @@ def run_c23(tier):
         if r["records"].get("BAD"):
             raise Undecided("unparsable TLC records in %s" % name)
         res.tlc(r, name)
-        return r["records"].get("CASE", [])
+        return sorted(r["records"].get("CASE", []), key=lambda c: json.dumps(c, sort_keys=True))
 
     sinv = ["ScalarRefines", "ScalarDeviationsExplainAll", "EmitScalar"]
     ginv = ["GapRefines", "GapDeviationsExplainAll", "EmitGap"]
